@@ -46,6 +46,10 @@ func c17wrap(k byte, rng *core.Rng, variant int) hs.Wrap {
 	}
 	switch k {
 	case 'c':
+		if rng.Intn(3) == 0 {
+			// any code the library names: connection, shutdown and authorisation classes included
+			return hs.Wrap{K: 'c', S: core.Pick(rng, c17allCodes)}
+		}
 		return hs.Wrap{K: 'c', S: core.Pick(rng, c17codes)}
 	case 's':
 		return hs.Wrap{K: 's', S: core.Pick(rng, c17sev)}
